@@ -27,10 +27,11 @@ CRASH_IS_VIOLATION = False
 RULE = ("one case = (1..3 transports websocket/rawsocket with their own max_retries in {0,1,2,5,-1}, initial delay {0.1,1.5}, "
         "growth {1,1.5,3}, jitter {0,0.1,0.5}, max delay {1,5,300}) x is_fatal classifier {none, always, never, OSError, "
         "ApplicationError, n-th error} x main {none, completes at join, completes later} x a script of per-attempt outcomes "
-        "{refused, refused (non-OSError), TCP dropped before handshake, transport handshake refused, ABORT, joined then TCP "
+        "{refused, refused (non-OSError), TCP dropped before handshake, transport handshake refused, (asyncio) either of these with connection_lost delivered "
+        "BEFORE the future of create_connection() completes, ABORT, joined then TCP "
         "reset, joined then TCP closed, joined then router GOODBYE, joined then application leave, main returns, main "
         "raises} x stop() at {during the retry delay, connect in flight, TCP up, HELLO sent, joined} of one attempt. One "
-        "transport: ALL scripts over {refused, handshake refused, ABORT, joined-then-lost, main raises | application leave, "
+        "transport: ALL scripts over {refused, handshake refused, (asyncio) handshake refused before the connect result, ABORT, joined-then-lost, main raises | application leave, "
         "main returns} up to length 4 (quick) / 5 (thorough) for every max_retries value, and stop() at every phase of "
         "every attempt of the scripts up to length 2 (quick) / 3 (thorough); 2-3 transports and the remaining outcome "
         "variants: random scripts from random.Random(seed, shard). Runs with an unlimited budget are capped (the "
@@ -57,6 +58,11 @@ ASSUMPTIONS = [
     "listeners: every invocation of a session's own on_connect/on_join/on_leave/on_disconnect hook (and every 'ready' of a joined session) must be "
     "matched by exactly one invocation of the corresponding component listener with that session; sessions whose transport never completed the "
     "handshake fire nothing and expect nothing",
+    "asyncio: the outcomes He/Hde deliver the refusal, the protocol's close() and connection_lost() BEFORE the future of create_connection() "
+    "completes (a real loop resumes the awaiting task several iterations after connection_made()); a real selector transport reports "
+    "is_closing() once the connection is gone, so the harness sets that flag on vf.world's fake transport. Twisted: the endpoint Deferred fires "
+    "synchronously right after makeConnection() and connectionLost is never delivered re-entrantly, so this ordering cannot occur there "
+    "(He/Hde are not generated for Twisted)",
     "Twisted: task.Clock.callLater is given the assertion of the real ReactorBase.callLater (delay >= 0); asyncio: loop.call_at is only observed",
     "library randomness (random.normalvariate jitter) is real and recorded, not injected; a replay re-draws it, so a jitter-dependent witness may "
     "need several replays",
@@ -75,6 +81,7 @@ DECIDING = {
     "listener_events_compared": 2000,
     "next_delay_contract_evaluations": 2000,
     "jitter_draws_recorded": 200,
+    "early_teardowns_judged": 100,      # asyncio: connection_lost delivered before the connect future's callbacks ran
 }
 
 MAX_RETRIES = [0, 1, 2, 5, -1]
@@ -158,7 +165,7 @@ def judge(case, obs, fw, R=None):
     t_done = (obs.get("t_done") or [None])[0]
     stop = obs["stop"]
     multi = len(tcfgs) > 1
-    wedge = "negative-delay" if obs["negative_delays"] else "other"
+    wedge = "negative-delay" if obs["negative_delays"] else ("after-" + str(attempts[-1]["end"]) if attempts else "before-first-attempt")
 
     # ---- 1. every attempt against the policy ---------------------------------------------------------------------
     trigger = obs["t_start"]
@@ -212,6 +219,8 @@ def judge(case, obs, fw, R=None):
                          a["n"], i, waited, ref.max_delay[i]))
         ref.attempted(i)
         total[i] += 1
+        if a.get("early"):
+            cnt("early_teardowns_judged")
         if a["joined"]:
             ref.joined(i)
             cnt("joins_resetting_budget")
@@ -336,8 +345,9 @@ CORE_FAIL = ["R", "H", "A", "L"]
 ALL_OUTCOMES = ["R", "Rx", "Hd", "H", "A", "L", "Lc", "K", "G"]
 
 
-def one_transport_scripts(maxlen, with_main):
-    fail = CORE_FAIL + (["E"] if with_main else [])
+def one_transport_scripts(maxlen, with_main, fw="tx"):
+    # asyncio: + transport handshake refused with connection_lost delivered BEFORE the connect result (He)
+    fail = CORE_FAIL + (["He"] if fw == "aio" else []) + (["E"] if with_main else [])
     term = ["G"] + (["M"] if with_main else [])
     for k in range(0, maxlen + 1):
         for pre in itertools.product(fail, repeat=k):
@@ -368,7 +378,7 @@ def gen_cases(tier, seed, fw):
     stop_len = 2 if tier == "quick" else 3
     # A. one transport, every script, every budget
     for main in (None, "sync"):
-        for script in one_transport_scripts(exh_len, bool(main)):
+        for script in one_transport_scripts(exh_len, bool(main), fw):
             for mr in MAX_RETRIES:
                 rng = rng_for()
                 m = main if (main is None or rng.random() < 0.7) else "async"
@@ -378,7 +388,7 @@ def gen_cases(tier, seed, fw):
                     "script": script, "stop": None, "taps": rng.random() < 0.2, "cap": len(script) + (4 if mr == -1 else 8)}))
     # B. stop() at every phase of every attempt
     for main in (None, "sync", "async"):
-        for script in one_transport_scripts(stop_len, bool(main)):
+        for script in one_transport_scripts(stop_len, bool(main), fw):
             full = script if script else ["R"]
             for at in range(len(full)):
                 for phase in APPLICABLE[full[at]]:
@@ -393,13 +403,13 @@ def gen_cases(tier, seed, fw):
         rng = rng_for()
         nt = rng.choice([1, 2, 2, 3, 3])
         main = rng.choice([None, None, "sync", "async"])
-        alpha = ALL_OUTCOMES + (["M", "E", "E"] if main else [])
+        alpha = ALL_OUTCOMES + (["He", "Hde"] if fw == "aio" else []) + (["M", "E", "E"] if main else [])
         weights_fail_heavy = rng.random() < 0.6
         script = []
         for _j in range(rng.randint(0, 9)):
             o = rng.choice(alpha)
             if weights_fail_heavy and o in TERMINAL_OK and rng.random() < 0.7:
-                o = rng.choice(["R", "L", "A", "H"])
+                o = rng.choice(["R", "L", "A", "H"] + (["He", "Hde"] if fw == "aio" else []))
             script.append(o)
             if o in TERMINAL_OK:
                 break
@@ -422,14 +432,17 @@ def gen_cases(tier, seed, fw):
         out.append(("backoff-walk", {
             "transports": [transport_cfg(rng, max_retries=rng.choice([5, -1]), jitter=rng.choice([0.1, 0.5, 0.5])) for _k in range(nt)],
             "main": rng.choice([None, "sync"]), "fatal": None,
-            "script": [rng.choice(["R", "R", "H", "L", "A"]) for _j in range(rng.randint(0, 4))], "stop": None, "cap": 14}))
+            "script": [rng.choice(["R", "R", "H", "L", "A"] + (["He", "Hde"] if fw == "aio" else [])) for _j in range(rng.randint(0, 4))],
+            "stop": None, "cap": 14}))
     return out
 
 
 def shards(tier, seed):
-    parts = 8 if tier == "quick" else 32
+    # the asyncio list is about 1.7x the Twisted one (He/Hde in the enumerated alphabet)
+    nparts = {"tx": 6, "aio": 10} if tier == "quick" else {"tx": 12, "aio": 20}
     out = []
     for fw in ("tx", "aio"):
+        parts = nparts[fw]
         for i in range(parts):
             out.append({"name": "%s-%d" % (fw, i), "fw": fw, "timeout": 1800,
                         "params": {"tier": tier, "seed": seed, "part": i, "parts": parts, "fw": fw}})
@@ -513,7 +526,8 @@ MANIFEST_ENTRY = {
     "text": ("A real autobahn Component (Twisted and asyncio, WebSocket and RawSocket transports, 1-3 transports) is started on a "
              "virtual clock with the network boundary (endpoint.connect / loop.create_connection) owned by the harness; every "
              "connection attempt is time-stamped and answered according to a script of per-attempt outcomes (refused, handshake "
-             "refused, ABORT, joined then lost, router GOODBYE, application leave, main returns/raises), with is_fatal "
+             "refused - on asyncio also with connection_lost delivered before the connect result -, ABORT, joined then lost, router GOODBYE, "
+             "application leave, main returns/raises), with is_fatal "
              "classifiers, retry/back-off grids and stop() at every phase. The attempt log, the completions of start()'s future "
              "and the listener invocations are compared with a reference of the retry policy written from the statement (budget "
              "since last join, fatal errors, round-robin, first attempt undelayed, waits <= max_retry_delay, exactly-once "
